@@ -28,7 +28,7 @@ PROPS = {
                        "once each and in order. Unit impl_args: validate_implementation_field_arguments appends exactly the reports IsValidImplementation 2.c / 2.d owe, in order -- an interface field argument missing on the implementing field, "
                        "present with a type that is not THE SAME type (invariant: `ID!` vs `ID` is reported), an additional argument that is required (non-null without default) -- for every schema, implementor and list of interfaces. "
                        "Bodies are re-extracted from /repo on every run.",
-        "assumptions": ["IndexMap / IndexSet / HashMap / HashSet shims; Schema::is_subtype's relation is proved in unit subtype; `.iter().find / any` by name are first-match searches; derived PartialEq of ast::Type is structural equality"],
+        "assumptions": ["IndexMap / IndexSet / HashMap / HashSet shims; Schema::is_subtype's relation is proved in unit subtype; `.iter().find / any` are first-match searches over the code's own predicate closures (kept verbatim); derived PartialEq of ast::Type is structural equality"],
         "not_decided": ["the property as stated: agreement of the WHOLE of schema validation with the reference implementation (graphql-js via graphql-core) -- every other rule (root operation types, field / argument / "
                         "directive definitions, unions, enums, input objects, transitive interfaces, input-object cycles) and the documented differences; no oracle exists inside a contract"],
     },
